@@ -42,6 +42,10 @@ func (u *usess) callable() bool {
 
 func sameConnLimiter(a, b *overloader.VerifConn) bool { return *a == *b }
 
+// the known finding limiter-recreated-forgets-sessions is reported once per history and at most
+// ten times per run, so that it cannot crowd other failures out of the (bounded) failure list
+var forgetReports int
+
 func caseUpd(cfg *RunCfg, st *Stats, w *CaseWriter, idx int, dialSide bool) string {
 	r := cfg.Rng
 	kind := "ulive"
@@ -150,6 +154,33 @@ func caseUpd(cfg *RunCfg, st *Stats, w *CaseWriter, idx int, dialSide bool) stri
 	}
 
 	// ---- operations ----
+	// Known finding, exactly this class: a connection is admitted although MaxConn or more sessions
+	// are alive, the current limiter instance is within its own limit, and that instance was
+	// RE-CREATED after a removal (Update(MaxConn <= 0), then > 0): every session in excess was
+	// admitted before that re-creation (through an earlier instance or while none existed) and
+	// the fresh instance, built from zero, does not count it.  Anything else keeps its key:
+	// more than the limit through ONE instance is over-admission, also after a plain raise /
+	// lower (which never builds a new instance, gens stays 1).
+	forgetReported := false
+	forgotten := func(admittedNow, liveBefore, throughCurBefore int) {
+		total := liveBefore + admittedNow
+		if gen < 0 || int32(total) <= curLim || int32(throughCurBefore+admittedNow) > curLim {
+			return
+		}
+		if gens <= 1 {
+			// the only limiter the plugin ever had was created while sessions admitted without any
+			// limit were alive (plugin started with MaxConn 0): not the recorded class
+			st.Count(kind + ":more-sessions-than-MaxConn-limit-first-set-under-live-sessions")
+			return
+		}
+		st.Count(kind + ":more-sessions-than-MaxConn-after-limiter-recreated")
+		if forgetReported || forgetReports >= 10 {
+			return
+		}
+		forgetReported = true
+		forgetReports++
+		fail("limiter-recreated-forgets-sessions", fmt.Sprintf("%d connection(s) admitted with %d sessions alive and MaxConn %d: limiter instance #%d was re-created after a removal and counts only the %d admitted through it, not the %d admitted before", admittedNow, liveBefore, curLim, gen, throughCurBefore, liveBefore-throughCurBefore))
+	}
 	connOracle := func(admitted, e, l bool, before int) {
 		if admitted {
 			if !e || !l {
@@ -158,6 +189,7 @@ func caseUpd(cfg *RunCfg, st *Stats, w *CaseWriter, idx int, dialSide bool) stri
 			if gen >= 0 && int32(before+1) > curLim {
 				fail("over-admission", fmt.Sprintf("connection admitted as number %d of limiter instance #%d whose limit is %d (%d sessions alive in all)", before+1, gen, curLim, len(live)))
 			}
+			forgotten(1, len(live), before)
 		} else if e && l && (gen < 0 || int32(before) < curLim) {
 			fail("spurious-reject", fmt.Sprintf("connection refused with %d admitted through the current limiter and limit %d (0 = none)", before, curLim))
 		}
@@ -210,6 +242,7 @@ func caseUpd(cfg *RunCfg, st *Stats, w *CaseWriter, idx int, dialSide bool) stri
 	}
 	doBatch := func(kk int) {
 		before := liveOf(gen)
+		liveBefore := len(live)
 		ps := make([]*Pair, kk)
 		var wg sync.WaitGroup
 		for j := range ps {
@@ -242,6 +275,8 @@ func caseUpd(cfg *RunCfg, st *Stats, w *CaseWriter, idx int, dialSide bool) stri
 		emit(VL(VS("batch"), VN(int64(kk))), fmt.Sprintf("batch(%d)->%d", kk, got))
 		if got > free {
 			fail("over-admission", fmt.Sprintf("%d concurrent connections: %d admitted with %d free slots of limiter instance #%d (limit %d)", kk, got, free, gen, curLim))
+		} else if got > 0 {
+			forgotten(got, liveBefore, before)
 		}
 		if got < free && got < kk {
 			fail("spurious-reject", fmt.Sprintf("%d concurrent connections: only %d admitted with %d free slots", kk, got, free))
@@ -385,9 +420,6 @@ func caseUpd(cfg *RunCfg, st *Stats, w *CaseWriter, idx int, dialSide bool) stri
 			if want := int64(liveOf(j)); now != want || tmp != want {
 				fail("slot-accounting", fmt.Sprintf("limiter instance #%d (%s) now=%d tmp=%d with %d live sessions admitted through it (%d alive in all)", j, role, now, tmp, want, len(live)))
 			}
-		}
-		if gen >= 0 && gens > 1 && int32(len(live)) > curLim && int32(liveOf(gen)) <= curLim {
-			st.Count(kind + ":more-sessions-than-MaxConn-after-limiter-recreated")
 		}
 		cur := VS("none")
 		if curInst >= 0 {
